@@ -150,9 +150,90 @@ static int op_gen_inner(int argc, char **argv, FILE *o) {
     (void) any_exhausted;
     hx_free(&s); return 0;
 }
+
+/* ---- rngint: the REAL randombytes_internal_random.c, run deterministically on a scripted outside world (wrap_sys.c) ----
+   rngint <ent> <times> <pids> <devopen> <calls>
+     ent     "-" or comma list, one item per getentropy() call: hex bytes (zero padded to the requested size) or "!" (= -1); past the end: -1
+     times   "-" or comma list, one item per gettimeofday() call: sec.usec or "!" (= -1); past the end: -1
+     pids    comma list, one item per getpid() call; the last one repeats
+     devopen "ok" | "fail": whether open("/dev/random") / open("/dev/urandom") succeed
+     calls   comma list: buf:N rnd stir close   = the function pointers of randombytes_internal_implementation
+                         Buf:N Rnd Stir Close Uni:N Bytes:N = randombytes_buf / _random / _stir / _close / _uniform / randombytes() of randombytes.c
+                         with the internal implementation installed through randombytes_set_implementation
+   prints one token per call (buf: hex, rnd / Uni: decimal, stir: ok, close: the return value), then "misuse" / "abort" if the history was cut short,
+   then ent=<sizes of the getentropy requests> t=<gettimeofday calls> p=<getpid calls> o=<device opens>.
+   Runs in a forked child: the parent's (never used) internal generator state is the initial state of every line. */
+#include <signal.h>
+#include <unistd.h>
+#include "wrap_sys.h"
+static FILE *ri_o;
+static void ri_trailer(const char *how) {
+    int i;
+    if (how) fprintf(ri_o, "%s ", how);
+    fputs("ent=", ri_o);
+    if (hxw_rng_ent_calls == 0) fputc('-', ri_o);
+    for (i = 0; i < hxw_rng_ent_calls && i < HXW_RNG_MAX; i++) fprintf(ri_o, "%s%zu", i ? "," : "", hxw_rng_ent_log[i]);
+    fprintf(ri_o, " t=%d p=%d o=%d", hxw_rng_time_calls, hxw_rng_pid_calls, hxw_rng_open_calls);
+    fflush(ri_o);
+}
+static void ri_misuse(void) { ri_trailer("misuse"); _exit(0); }
+static void ri_abort(int sig) { (void) sig; ri_trailer("abort"); _exit(0); }
+static void ri_run(void *arg, FILE *o) {
+    char *calls = (char *) arg, *p, *save; static unsigned char out[1 << 16];
+    const randombytes_implementation *I = &randombytes_internal_implementation;
+    ri_o = o;
+    sodium_set_misuse_handler(ri_misuse); signal(SIGABRT, ri_abort);
+    randombytes_set_implementation(&randombytes_internal_implementation);
+    hxw_rng_on = 1;
+    for (p = strtok_r(calls, ",", &save); p; p = strtok_r(NULL, ",", &save)) {
+        size_t n = 0; const char *c = strchr(p, ':');
+        if (c) n = (size_t) strtoull(c + 1, NULL, 10);
+        if (n > sizeof out && strncmp(p, "Uni:", 4) != 0) n = sizeof out;
+        if (!strncmp(p, "buf:", 4)) { memset(out, 0x5c, n); I->buf(out, n); hx_put_hex(o, out, n); }
+        else if (!strcmp(p, "rnd")) fprintf(o, "%u", I->random());
+        else if (!strcmp(p, "stir")) { I->stir(); fputs("ok", o); }
+        else if (!strcmp(p, "close")) fprintf(o, "%d", I->close());
+        else if (!strncmp(p, "Buf:", 4)) { memset(out, 0x5c, n); randombytes_buf(out, n); hx_put_hex(o, out, n); }   /* n = 0: buffer untouched, prints "-" */
+        else if (!strncmp(p, "Bytes:", 6)) { memset(out, 0x5c, n); randombytes(out, (unsigned long long) n); hx_put_hex(o, out, n); }
+        else if (!strcmp(p, "Rnd")) fprintf(o, "%u", randombytes_random());
+        else if (!strcmp(p, "Stir")) { randombytes_stir(); fputs("ok", o); }
+        else if (!strcmp(p, "Close")) fprintf(o, "%d", randombytes_close());
+        else if (!strncmp(p, "Uni:", 4)) fprintf(o, "%u", randombytes_uniform((uint32_t) n));
+        else fputs("?", o);
+        fputc(' ', o); fflush(o);
+    }
+    ri_trailer(NULL);
+}
+static int op_rngint(int argc, char **argv, FILE *o) {
+    static char outbuf[1 << 20]; static buf_t ent[HXW_RNG_MAX]; char *p, *save; int i, r, bad = 0;
+    if (argc != 5) return -1;
+    if (sodium_runtime_has_rdrand()) { fputs("unavailable", o); return 0; }   /* RDRAND values cannot be scripted: run with SODIUM_VERIF_CPU_DISABLE=rdrand */
+    hxw_rng_nent = hxw_rng_ntime = hxw_rng_npid = 0;
+    hxw_rng_ent_calls = hxw_rng_time_calls = hxw_rng_pid_calls = hxw_rng_open_calls = 0;
+    if (strcmp(argv[0], "-") != 0) for (p = strtok_r(argv[0], ",", &save); p && hxw_rng_nent < HXW_RNG_MAX; p = strtok_r(NULL, ",", &save)) {
+        i = hxw_rng_nent++;
+        ent[i].p = NULL; ent[i].n = 0;
+        if (!strcmp(p, "!")) hxw_rng_entlen[i] = -1;
+        else if (hx_hex(p, &ent[i])) { bad = 1; hxw_rng_entlen[i] = -1; }
+        else { hxw_rng_ent[i] = ent[i].p; hxw_rng_entlen[i] = (long) ent[i].n; }
+    }
+    if (strcmp(argv[1], "-") != 0) for (p = strtok_r(argv[1], ",", &save); p && hxw_rng_ntime < HXW_RNG_MAX; p = strtok_r(NULL, ",", &save)) {
+        i = hxw_rng_ntime++;
+        if (!strcmp(p, "!")) { hxw_rng_sec[i] = 0; hxw_rng_usec[i] = -1; }
+        else { char *d = strchr(p, '.'); if (!d) { bad = 1; hxw_rng_usec[i] = -1; } else { hxw_rng_sec[i] = (long long) strtoull(p, NULL, 10); hxw_rng_usec[i] = (long long) strtoull(d + 1, NULL, 10); } }
+    }
+    for (p = strtok_r(argv[2], ",", &save); p && hxw_rng_npid < HXW_RNG_MAX; p = strtok_r(NULL, ",", &save)) hxw_rng_pid[hxw_rng_npid++] = strtol(p, NULL, 10);
+    hxw_rng_open_fail = !strcmp(argv[3], "fail");
+    if (!bad) {
+        r = hx_in_child(ri_run, argv[4], outbuf, sizeof outbuf);
+        if (r == 0) fputs(outbuf, o); else fprintf(o, "%s CHILD-DIED(%d)", outbuf, r);
+    }
+    for (i = 0; i < hxw_rng_nent; i++) if (hxw_rng_entlen[i] >= 0) hx_free(&ent[i]);
+    return bad ? -1 : 0;
+}
 #define HIST(NAME, BASE, K) static int NAME(int c, char **v, FILE *o) { int r; rng_pre = K; r = BASE(c, v, o); rng_pre = 0; return r; }
 HIST(op_gen_h1, op_gen, 1) HIST(op_gen_h2, op_gen, 2) HIST(op_gen_h3, op_gen, 3)
 HIST(op_uniform_h1, op_uniform, 1) HIST(op_uniform_h2, op_uniform, 2) HIST(op_uniform_h3, op_uniform, 3)
 const hx_op ops_c18[] = { {"rng.uniform", op_uniform}, {"rng.drg", op_drg}, {"rng.drg.alias", op_drg_alias}, {"rng.drg_guard", op_drg_guard}, {"rng.gen", op_gen},
     {"rng.gen.h1", op_gen_h1}, {"rng.gen.h2", op_gen_h2}, {"rng.gen.h3", op_gen_h3},
-    {"rng.uniform.h1", op_uniform_h1}, {"rng.uniform.h2", op_uniform_h2}, {"rng.uniform.h3", op_uniform_h3}, {NULL, NULL} };
+    {"rng.uniform.h1", op_uniform_h1}, {"rng.uniform.h2", op_uniform_h2}, {"rng.uniform.h3", op_uniform_h3}, {"rngint", op_rngint}, {NULL, NULL} };
